@@ -257,6 +257,32 @@ def _exprmask_case(rng):
                 factor=rng.choice([2, 3, -1]), greater=rng.randint(2, 12), coords=[])
 
 
+def _seq_case(rng):
+    """the functional front end seqpncbo(ops, files) behind --op-typ: three or four files folded from the left with operators
+    that neither commute nor associate; the coordinate variable is the left-most file's (oracle only)"""
+    n = rng.randint(2, 5)
+    k = rng.randint(3, 4)
+    return dict(kind='seq', n=n, coords=[], ops=[rng.choice(['-', '/', '-', '/', '+', '*']) for _ in range(k - 1)],
+                vals=[[rng.randint(0, 6) for _ in range(n)] for _ in range(k)], times=[[10 * j + i for i in range(n)] for j in range(k)])
+
+
+def _rmsingle_case(rng):
+    """a file with a single time step whose coordinate variable is named after the dimension, removeSingleton, then an
+    operator with itself or mask(): the coordinate variable is still passed through (oracle only)"""
+    n = rng.randint(2, 4)
+    return dict(kind='rmsingle', n=n, coords=[], a=[rng.randint(0, 30) for _ in range(n)], t=rng.randint(5, 40),
+                op=rng.choice(['add', 'truediv', 'mask']), dimkey=rng.choice([None, 'time']))
+
+
+def _maskmeta_case(rng):
+    """mask_vals with its default list of coordinate names: a data variable whose name merely begins with a coordinate name
+    (layer_thickness, time_since_start) is data (oracle only)"""
+    n = rng.randint(3, 6)
+    return dict(kind='maskmeta', n=n, coords=[], name=rng.choice(['layer_thickness', 'time_since_start', 'latitude_flux', 'level_height']),
+                a=[rng.randint(0, 9) for _ in range(n)], b=[rng.randint(0, 9) for _ in range(n)],
+                step=rng.choice([['greater', rng.randint(3, 7)], ['less', rng.randint(2, 5)], ['where', 'A[:]>%d' % rng.randint(3, 6)]]))
+
+
 def _masktr_case(rng):
     """mask(where=condition over (y, x)) on a square grid that also holds a field laid out (x, y): the condition belongs to the
     variables of its dimension tuple, in that order (oracle only)"""
@@ -269,7 +295,9 @@ def gen(rng, tier):
     n = 300 if tier == 'quick' else 10000
     return [_masktr_case(rng) for _ in range(max(3, n // 60))] + [_case(rng) for _ in range(n)] + [_chain_case(rng) for _ in range(n // 6)] + [_twice_case(rng) for _ in range(n // 15)] + \
         [_extreme_case(rng) for _ in range(n // 10)] + [_maskvals_case(rng) for _ in range(n // 10)] + \
-        [_reflect_case(rng) for _ in range(max(4, n // 30))] + [_exprmask_case(rng) for _ in range(max(3, n // 60))]
+        [_reflect_case(rng) for _ in range(max(4, n // 30))] + [_exprmask_case(rng) for _ in range(max(3, n // 60))] + \
+        [_seq_case(rng) for _ in range(max(3, n // 60))] + [_rmsingle_case(rng) for _ in range(max(3, n // 60))] + \
+        [_maskmeta_case(rng) for _ in range(max(3, n // 60))]
 
 
 def _py(e):
@@ -390,6 +418,56 @@ def impl(case):
                     r = o.variables[k][...]
                     out[k] = dict(mask=np.ma.getmaskarray(r).ravel().tolist(), data=np.ma.getdata(r).astype('d').ravel().tolist())
                 return dict(vars=out)
+            if case['kind'] == 'seq':
+                import PseudoNetCDF as pnc
+                from PseudoNetCDF.core._functions import seqpncbo
+                fs = []
+                for vals, times in zip(case['vals'], case['times']):
+                    f = pnc.PseudoNetCDFFile()
+                    f.createDimension('time', case['n'])
+                    tv = f.createVariable('time', 'd', ('time',))
+                    tv[:] = np.array(times, dtype='d')
+                    va = f.createVariable('A', 'd', ('time',))
+                    va[:] = np.array(vals, dtype='d')
+                    f.setCoords(['time'])
+                    fs.append(f)
+                with np.errstate(all='ignore'):
+                    out = seqpncbo(list(case['ops']), fs)
+                r = out[0].variables['A'][...]
+                return dict(nout=len(out), time=np.asarray(out[0].variables['time'][...], dtype='d').tolist(),
+                            vars=dict(A=dict(mask=np.ma.getmaskarray(r).tolist(), data=np.ma.getdata(r).astype('d').tolist())))
+            if case['kind'] == 'rmsingle':
+                import PseudoNetCDF as pnc
+                f = pnc.PseudoNetCDFFile()
+                f.createDimension('time', 1)
+                f.createDimension('x', case['n'])
+                tv = f.createVariable('time', 'd', ('time',))
+                tv[:] = float(case['t'])
+                va = f.createVariable('A', 'd', ('time', 'x'))
+                va[:] = np.array(case['a'], dtype='d')[None]
+                f.setCoords(['time'])
+                g = f.removeSingleton() if case['dimkey'] is None else f.removeSingleton(case['dimkey'])
+                with np.errstate(all='ignore'):
+                    r = g + g if case['op'] == 'add' else (g / g if case['op'] == 'truediv' else g.mask(greater=3))
+                out = {}
+                for k in ('time', 'A'):
+                    x = r.variables[k][...]
+                    out[k] = dict(mask=np.ma.getmaskarray(x).ravel().tolist(), data=np.ma.getdata(x).astype('d').ravel().tolist())
+                return dict(vars=out)
+            if case['kind'] == 'maskmeta':
+                import PseudoNetCDF as pnc
+                from PseudoNetCDF.core._functions import mask_vals
+                f = pnc.PseudoNetCDFFile()
+                f.createDimension('x', case['n'])
+                for k, vals in (('A', case['a']), (case['name'], case['b']), ('time', case['b'])):
+                    v = f.createVariable(k, 'd', ('x',))
+                    v[:] = np.array(vals, dtype='d')
+                f = mask_vals(f, '%s,%s' % tuple(case['step']))
+                out = {}
+                for k in ('A', case['name'], 'time'):
+                    x = f.variables[k][...]
+                    out[k] = dict(mask=np.ma.getmaskarray(x).tolist(), data=np.ma.getdata(x).astype('d').tolist())
+                return dict(vars=out)
             if case['kind'] == 'exprmask':
                 import PseudoNetCDF as pnc
                 from PseudoNetCDF.core._functions import pncexpr
@@ -481,7 +559,7 @@ def impl(case):
 
 def to_line(case, res):
     co = '.'.join(case['coords']) or '-'
-    if case['kind'] in ('extreme', 'maskvals', 'reflect', 'masktr', 'exprmask'):
+    if case['kind'] in ('extreme', 'maskvals', 'reflect', 'masktr', 'exprmask', 'seq', 'rmsingle', 'maskmeta'):
         return 'c06 nop'            # no model question: float32 range / the legacy helper, judged by the oracle
     if case['kind'] == 'twice':
         return 'c06 twice %s %s %s' % (case['how'], case['var'], ' '.join(pfile.encode(case['spec'])))
@@ -517,7 +595,7 @@ def _strip_flags(text):
 
 
 def agree(case, out, res):
-    if case['kind'] in ('extreme', 'maskvals', 'reflect', 'masktr', 'exprmask'):
+    if case['kind'] in ('extreme', 'maskvals', 'reflect', 'masktr', 'exprmask', 'seq', 'rmsingle', 'maskmeta'):
         return None
     if 'err' in res:
         return None if out.startswith('err') else 'impl raised %s (%s), model %s' % (res['err'], res.get('msg'), out[:80])
@@ -617,6 +695,56 @@ def oracle(case, res):
                 return 'mask(where over (y, x)%s): variable %s%s is missing at %s, the condition and predicates give %s' % (
                     ', greater=%s' % case['greater'] if case['greater'] is not None else '', k, '(x, y)' if k == 'AT' else '(y, x)',
                     res['vars'][k]['mask'], want.tolist())
+        return None
+    if case['kind'] == 'seq':
+        if 'err' in res:
+            return 'seqpncbo raised %s %s' % (res['err'], res.get('msg'))
+        import operator as _op
+        fn = {'-': _op.sub, '/': _op.truediv, '+': _op.add, '*': _op.mul}
+        with np.errstate(all='ignore'):
+            cur = np.ma.masked_array(np.array(case['vals'][0], dtype='d'))
+            for op, vals in zip(case['ops'], case['vals'][1:]):
+                cur = np.ma.masked_invalid(fn[op](cur, np.array(vals, dtype='d')))
+        wm = np.ma.getmaskarray(cur).tolist()
+        expr = ' '.join(str(x) for pair in zip(['f0'] + ['f%d' % (i + 1) for i in range(len(case['ops']))], case['ops'] + ['']) for x in pair)
+        if res['nout'] != 1 or res['vars']['A']['mask'] != wm or any(
+                not m and abs(x - y) > 1e-9 * max(1., abs(y)) for m, x, y in zip(wm, res['vars']['A']['data'], np.ma.getdata(cur).tolist())):
+            return 'seqpncbo %s (left to right): A %s / missing %s, numpy gives %s / %s' % (
+                expr, res['vars']['A']['data'], res['vars']['A']['mask'], np.ma.getdata(cur).tolist(), wm)
+        if res['time'] != [float(x) for x in case['times'][0]]:
+            return 'seqpncbo %s: the coordinate variable time is %s, the left-most file has %s' % (expr, res['time'], case['times'][0])
+        return None
+    if case['kind'] == 'rmsingle':
+        if 'err' in res:
+            return 'removeSingleton then %s raised %s %s' % (case['op'], res['err'], res.get('msg'))
+        t = res['vars']['time']
+        if any(t['mask']) or t['data'] != [float(case['t'])]:
+            return 'removeSingleton(%s) then %s: the coordinate variable time (%s) comes back as %s, missing %s' % (
+                case['dimkey'], case['op'], case['t'], t['data'], t['mask'])
+        a = np.array(case['a'], dtype='d')
+        with np.errstate(all='ignore'):
+            want = np.ma.masked_invalid(a + a) if case['op'] == 'add' else (
+                np.ma.masked_invalid(np.ma.masked_array(a) / a) if case['op'] == 'truediv' else np.ma.masked_greater(a, 3))
+        wm = np.ma.getmaskarray(want).tolist()
+        if res['vars']['A']['mask'] != wm or any(not m and x != y for m, x, y in zip(wm, res['vars']['A']['data'], np.ma.getdata(want).tolist())):
+            return 'removeSingleton then %s: A %s / %s, numpy gives %s / %s' % (case['op'], res['vars']['A']['data'], res['vars']['A']['mask'],
+                                                                                np.ma.getdata(want).tolist(), wm)
+        return None
+    if case['kind'] == 'maskmeta':
+        if 'err' in res:
+            return 'mask_vals raised %s %s' % (res['err'], res.get('msg'))
+        A, B = np.array(case['a'], dtype='d'), np.array(case['b'], dtype='d')
+        mtype, mval = case['step']
+        for k, v in (('A', A), (case['name'], B)):
+            if mtype == 'where':
+                wm = eval(mval, dict(np=np), dict(A=A)).tolist()
+            else:
+                wm = {'greater': np.greater, 'less': np.less}[mtype](v, mval).tolist()
+            if res['vars'][k]['mask'] != wm:
+                return 'mask_vals %s (default coordinate names): data variable %s is missing at %s, the predicate gives %s' % (
+                    case['step'], k, res['vars'][k]['mask'], wm)
+        if any(res['vars']['time']['mask']):
+            return 'mask_vals %s masked the coordinate variable time' % (case['step'],)
         return None
     if case['kind'] == 'exprmask':
         if 'err' in res:
